@@ -215,7 +215,16 @@ class Scenario:
         E = np.round(self.E)
         self.E = np.column_stack((E[:, 0] * 1e9 + 4e10, E[:, 1] * 3e9))
         self.va, self.vb = self.va * 3e9, self.vb * 3e9 + 7
-        self.G, self.tri, self.rects = self.G * 5e9, self.tri * 5e9, self.rects * 5e9
+        if self.probe_rng.random() < 0.4:
+            # anisotropic point set: abscissae in multiples of 2 GiB, small ordinates, several points on the bottom row (collinear
+            # with the scan's anchor) - no product of an x and a y difference leaves int64, but any SQUARED x difference does
+            self.aniso = True
+            G = self.G.copy()
+            G[:, 0] = G[:, 0] * float(2 ** 31)
+            self.G = G
+            self.tri, self.rects = self.tri * 5e9, self.rects * 5e9
+        else:
+            self.G, self.tri, self.rects = self.G * 5e9, self.tri * 5e9, self.rects * 5e9
         with install.quiet():
             red, rem = mods['rdp'].rdp_fixed(self.P, max(6, self.n // 2))
         self.reduced, self.removed = np.asarray(red), np.asarray(rem)
@@ -224,6 +233,7 @@ class Scenario:
             self.KR = np.array([1])
 
     large = False
+    aniso = False
 
     def view(self, layout, alt=False, flat=False):
         v = type('V', (), {})()
@@ -524,7 +534,40 @@ def executable_lines(mods):
 STATE = {}
 
 
+CCW_WRAP = [0]      # calls of convex_hull._ccw on integer-typed points whose int64 value differs from the exact integer one
+
+
+def _install_ccw_probe(mods):
+    """The open finding F-2 is ONE mechanism: the orientation predicate convex_hull._ccw wraps in int64.  The probe observes
+    every call of the predicate and counts the calls that really wrapped, so that an int64-only deviation of a hull routine
+    is attributed to the finding only when the predicate wrapped during that very call - any other int64 deviation in the
+    same functions is a different violation and is reported under the plain representation key."""
+    ch = mods['convex_hull']
+    orig = ch._ccw
+    if getattr(orig, '_kneemon_probe', False):
+        return
+
+    def _ccw(a, b, c):
+        r = orig(a, b, c)
+        try:
+            if all(getattr(getattr(v, 'dtype', None), 'kind', '') == 'i' for v in (a, b, c)):
+                ax, ay, bx, by, cx, cy = int(a[0]), int(a[1]), int(b[0]), int(b[1]), int(c[0]), int(c[1])
+                if (bx - ax) * (cy - ay) - (cx - ax) * (by - ay) != int(r):
+                    CCW_WRAP[0] += 1
+        except Exception:
+            pass
+        return r
+    _ccw._kneemon_probe = True
+    _ccw.__module__ = orig.__module__
+    _ccw.__wrapped__ = orig
+    ch._ccw = _ccw
+
+
+HULL_USERS = ('convex_hull.', 'postprocessing.filter_clusters')
+
+
 def setup(ctx, mods):
+    _install_ccw_probe(mods)
     STATE['entries'] = entries(mods)
     STATE['raise'] = RaiseMonitor(ctx)
     STATE['raise'].start()
@@ -639,6 +682,7 @@ def run_entry(ctx, mods, name, fn, scen, layouts):
     for lay in layouts:
         vl = scen.view(lay)
         before_l = {k: argdigest(getattr(vl, k)) for k in PURE_FIELDS}
+        wraps0 = CCW_WRAP[0]
         stl, rl = call(ctx, name, fn, vl)
         # purity in every representation: a function that copies C-ordered input may still write into an array that is
         # already in the layout / dtype it converts to
@@ -646,6 +690,10 @@ def run_entry(ctx, mods, name, fn, scen, layouts):
         ctx.check(not changed_l, 'purity', f'purity:{short}:{lay}', f'{name} modified its argument(s) {changed_l} in the {lay} representation')
         # mechanism classifier: values of magnitude ~1e10, only the int64 representation deviates, the float64 ones agree
         overflow_class = scen.large and lay == 'i64' and all(agree.values())
+        if overflow_class and short.startswith(HULL_USERS) and CCW_WRAP[0] == wraps0:
+            overflow_class = False       # the orientation predicate did not wrap in this call: not the listed mechanism
+        if short.startswith(HULL_USERS) and lay == 'i64':
+            ctx.h('ccw_int64_wraps_during_call', 'some' if CCW_WRAP[0] > wraps0 else 'none')
         kname = f'representation:int64-overflow:{short}' if overflow_class else f'representation:{short}:{lay}'
         if st1 != stl or st1 == 'exc':
             agree[lay] = (st1 == stl and r1 == rl)
@@ -748,6 +796,8 @@ def run_case(ctx, mods, case):
         ctx.h('point_set', 'needle (determinant +-1, all products exact in both dtypes)')
     layouts = ['F', 'view'] + (['i64'] if case['integral'] else [])
     ctx.h('scenario', f"{'integral-large' if case.get('large') else ('integral' if case['integral'] else 'float')}/{scen.family}")
+    if scen.aniso:
+        ctx.h('point_set', 'anisotropic large int64 (x in multiples of 2^31, small y)')
     FIRST.clear()
     base_err = np.geterr()
     for name, fn in STATE['entries'].items():
